@@ -14,6 +14,30 @@ def fuzz(workers, runs, **kw):
 NOT_CLAIMED = {}
 
 PROPS = {
+    "C01": dict(
+        level="exploration",
+        technique="model-based property testing (rapidcheck tape generator + libFuzzer) of the PDU-building API; byte-equality against an independent RFC encoder, round-trip through independent decoder and coap_pdu_parse",
+        level_text="Generated build sequences over all six transports; after every API call the accessor dump must equal an abstract model that follows "
+                   "the call's return value (so a refusal must disturb nothing), refusals of options that demonstrably fit are violations, and the final "
+                   "bytes must equal the canonical encoding produced by an independent encoder and re-parse to the model. Exploration-level: evidence "
+                   "reports the number of distinct non-trivial messages and the class histogram.",
+        level_note="Trusted base: ref/refcodec.h encoder/decoder; the model of the API's documented semantics in props/pdumodel.h "
+                   "(stable ascending insertion, RFC 8768 Hop-Limit auto-insertion before Proxy-* in requests).",
+        quick=rc(6, 60000) + fuzz(4, 150000, max_len=220),
+        thorough=rc(10, 800000) + fuzz(6, 3000000, max_len=400),
+        assumptions=["reference encoder ref/refcodec.h is canonical per RFC 7252 s3 / RFC 8974 / RFC 8323 s3"],
+    ),
+    "C04": dict(
+        level="exploration",
+        technique="stateful model-based property testing (rapidcheck tape generator + libFuzzer): edit sequences on a coap_pdu_t mirrored in a list model, checked after every step through accessors, independent codec and re-parse",
+        level_text="Generated edit histories (insert/update/remove/token replacement) on built and parsed messages with bounded and unbounded buffers; "
+                   "after every edit the accessor dump, the serialisation (byte equality with an independent encoder) and the re-parse must equal the model, "
+                   "and refusals are only admissible when the result does not fit. ASan turns a stale pointer after a forced buffer move into a report.",
+        level_note="Trusted base: list model of the documented edit semantics in props/C04.cc + ref/refcodec.h. coap_pdu_duplicate is not exercised here (needs a session).",
+        quick=rc(6, 30000) + fuzz(4, 100000, max_len=400),
+        thorough=rc(10, 500000) + fuzz(6, 2000000, max_len=600),
+        assumptions=["edit semantics: insert keeps order among equal numbers, update/remove act on the first option with that number, update of an absent option inserts"],
+    ),
     "C03": dict(
         level="exploration",
         technique="differential fuzzing (libFuzzer + rapidcheck tape generator) of coap_pdu_parse against an independent strict RFC decoder",
